@@ -448,7 +448,7 @@ func (b *UnsafeLinkBuffer) MallocAck(n int) (err error) {
 	b.write = b.flush
 
 	var l int
-	for ack := n; ack > 0; ack = ack - l {
+	for ack := n; ack >= 0; ack = ack - l {
 		l = b.write.malloc - len(b.write.buf)
 		if l >= ack {
 			b.write.malloc = ack + len(b.write.buf)
